@@ -11,7 +11,7 @@ import os
 
 from .. import core
 from ..core import AnalysisBroken, sx_walk
-from ..engines import diag, dispatch
+from ..engines import diag, dispatch, guard
 from ..oracles import xsd_builtins as O
 
 FACTORY = "DatatypeValidatorFactory::expandRegistryToFullSchemaSet"
@@ -162,11 +162,145 @@ def xsvalue_rule(rep, f, strs):
     rep.floor("C09.b", k, 40)
 
 
+# the one checkContent whose base call is legitimately conditional on more than "a base exists"
+BASE_FIRST_ALLOW = {
+    "ListDatatypeValidator::checkContent": ("DatatypeValidator::getType", "DatatypeValidator::List",
+        "a list's base validator is either another list (restriction of a list: delegate) or the item type, which the "
+        "else-branch applies to every token with validate()"),
+}
+
+
+def base_first_rule(rep, f):
+    rep.rule("C09.c", "restriction only narrows: every DatatypeValidator::checkContent override passes the value to the base "
+             "validator's checkContent (asBase = true), and that call is controlled by nothing but the test that a base "
+             "validator exists — a derived type that skips its base for some values accepts values outside the base's value space")
+    fns = [fn for fn in f.fns.values() if fn["q"].endswith("::checkContent") and "/validators/datatype/" in fn.get("file", "")
+           and fn["file"].endswith(".cpp")]
+    tus = sorted({os.path.join(core.REPO, fn["file"]) for fn in fns})
+    if not tus:
+        raise AnalysisBroken("no checkContent override found under validators/datatype")
+    g = core.run_xa(tus, cfg="::checkContent$", flat=False)
+    n = 0
+    for q, cs in sorted(g.cfgs.items()):
+        for c in cs:
+            cfg = guard.Cfg(c)
+            calls = guard.sites(cfg, lambda x: x[0] == "c" and x[1].endswith("::checkContent"))
+            if any(el["x"][2] == ["this"] for _, _, el in calls):
+                continue      # thin overload delegating to the real one on the same object
+            where = "%s:%s" % (c.get("file", ""), c.get("line", 0))
+            base = []
+            for bid, i, el in calls:
+                x = el["x"]
+                recv = x[2]
+                while recv and recv[0] == "cast":
+                    recv = recv[2]
+                if recv and recv[0] == "l" and any(a == ["i", 1] for a in x[3]):
+                    base.append((bid, el, recv))
+            n += 1
+            if not base:
+                rep.ob("C09.c", q, False, "%s never hands the value to the base validator's checkContent(.., asBase = true, ..)" % q, where)
+                continue
+            for bid, el, recv in base:
+                bad = []
+                for cond, pol, _p in guard.controlling(cfg, bid):
+                    cc = cond
+                    if cc[0] == "b" and cc[1] == "!=" and cc[3] == ["i", 0]:
+                        cc = cc[2]
+                    if cc == recv and pol:
+                        continue
+                    al = BASE_FIRST_ALLOW.get(q)
+                    if al and pol and cc[0] == "b" and cc[1] == "==" and cc[2][0] == "c" and cc[2][1] == al[0] and cc[2][2] == recv \
+                            and cc[3][0] == "e" and cc[3][1] == al[1]:
+                        continue
+                    bad.append("%s%s" % ("" if pol else "!", core.sx_str(cond)))
+                rep.ob("C09.c", q, not bad,
+                       "base checkContent call controlled only by the existence of the base validator" if not bad else
+                       "%s (line %s): the call of the base validator's checkContent is additionally conditional on %s — values for "
+                       "which it is skipped are not checked against the base type" % (q, el.get("l"), "; ".join(bad)),
+                       "%s:%s" % (c.get("file", ""), el.get("l", 0)))
+    rep.floor("C09.c", n, 9)
+
+
+# XML Schema Part 2 §3.2.6.2: the four dateTimes s for which s+x is compared with s+y
+REF_DATETIMES = [(1696, 9, 1), (1697, 2, 1), (1903, 3, 1), (1903, 7, 1)]
+
+
+def _index_values(node, callee, operand_pos, operand, idx_pos, env, out):
+    """collect the values of argument idx_pos of every `callee` call whose argument operand_pos is `operand`,
+    interpreting constant-bounded for loops; an index the walk cannot evaluate is recorded as None."""
+    if not isinstance(node, list) or not node:
+        return
+    if node[0] == "for" and len(node) >= 5:
+        init, cond, inc, body = node[1], node[2], node[3], node[4]
+        rng = None
+        if init and init[0] == "decl" and len(init[1]) == 1 and init[1][0][2] and init[1][0][2][0] == "i" and cond and cond[0] == "b" \
+                and cond[1] in ("<", "<=") and cond[2] == ["l", init[1][0][0]] and cond[3][0] == "i" \
+                and inc and inc[0] == "u" and inc[1] in ("++post", "++pre", "++") and inc[2] == ["l", init[1][0][0]]:
+            hi = cond[3][1] + (1 if cond[1] == "<=" else 0)
+            rng = (init[1][0][0], list(range(init[1][0][2][1], hi)))
+        if rng:
+            env = dict(env)
+            env[rng[0]] = rng[1]
+        else:
+            env = dict(env)
+            if init and init[0] == "decl":
+                for d in init[1]:
+                    env[d[0]] = None
+        _index_values(body, callee, operand_pos, operand, idx_pos, env, out)
+        return
+    if node[0] == "c" and node[1] == callee and len(node[3]) > max(operand_pos, idx_pos) and node[3][operand_pos] == operand:
+        a = node[3][idx_pos]
+        if a[0] == "i":
+            out.append([a[1]])
+        elif a[0] == "l" and env.get(a[1]) is not None:
+            out.append(env[a[1]])
+        else:
+            out.append(None)
+    for c in (node if isinstance(node[0], list) else node[1:]):
+        if isinstance(c, list):
+            _index_values(c, callee, operand_pos, operand, idx_pos, env, out)
+
+
+def duration_order_rule(rep, f):
+    rep.rule("C09.d", "order of durations (XML Schema Part 2 §3.2.6.2): the reference table DATETIMES holds exactly the four "
+             "dateTimes of the recommendation, and XMLDateTime::compare(d1, d2, strict) adds every one of them to both operands "
+             "(the set of row indices passed to addDuration, constant-bounded loops unrolled, is the whole table) — a comparison "
+             "that leaves a reference dateTime out reports an order for durations the recommendation calls indeterminate")
+    tu = os.path.join(core.REPO, "src/xercesc/util/XMLDateTime.cpp")
+    g = core.run_xa([tu], tables=r"^DATETIMES$", st=r"^XMLDateTime::compare$", flat=False)
+    t = g.table("DATETIMES")
+    rows = t["v"]
+    got = [tuple(r[:3]) for r in rows]
+    rep.ob("C09.d", "DATETIMES", got == REF_DATETIMES and all(all(v == 0 for v in r[3:7]) for r in rows),
+           "reference dateTimes %s" % got if got == REF_DATETIMES else "DATETIMES holds %s, the recommendation lists %s" % (got, REF_DATETIMES),
+           "src/xercesc/util/XMLDateTime.cpp:%s" % t.get("line", 0))
+    sts = [s for s in g.sts.get("XMLDateTime::compare", []) if s["sig"].count(",") == 2]
+    if not sts:
+        raise AnalysisBroken("XMLDateTime::compare(const XMLDateTime*, const XMLDateTime*, bool) not found")
+    body = sts[0]["body"]
+    for pos, name in ((0, "pDate1"), (1, "pDate2")):
+        out = []
+        _index_values(body, "XMLDateTime::addDuration", 1, ["p", pos, name], 2, {}, out)
+        if not out:
+            raise AnalysisBroken("XMLDateTime::compare: no addDuration call for operand %s" % name)
+        if any(o is None for o in out):
+            raise AnalysisBroken("XMLDateTime::compare: an addDuration index for %s is not a constant or a constant-bounded loop variable" % name)
+        used = sorted(set(v for o in out for v in o))
+        want = list(range(len(rows)))
+        rep.ob("C09.d", "compare/" + name, used == want,
+               "rows %s of DATETIMES are applied to %s" % (used, name) if used == want else
+               "XMLDateTime::compare applies only the reference dateTimes %s to %s; the table has rows %s — the order of two durations "
+               "is decided without %s" % (used, name, want, [REF_DATETIMES[i] for i in want if i not in used and i < len(REF_DATETIMES)]),
+               "src/xercesc/util/XMLDateTime.cpp:%s" % sts[0].get("line", 0))
+
+
 def run(rep):
     f = core.library_facts()
     rep.units.update(os.path.relpath(t, core.REPO) for t in f.tus)
     strs = builtins_rule(rep, f)
     xsvalue_rule(rep, f, strs)
+    base_first_rule(rep, f)
+    duration_order_rule(rep, f)
     diag.run(rep, f, "C09")
     dispatch.run(rep, f, "C09")
     rep.undecided += ["lexical and value-space verdicts of each validator, facet arithmetic, comparison order (consistency, indeterminate cases), "
